@@ -91,13 +91,13 @@ pub fn judge_point(ctx: &mut Ctx, layers: &[&'static nested::Layer], lon: f64, l
 }
 
 /// latitudes outside [-pi/2, pi/2] must be rejected by a panic at every depth
-/// longitudes beyond "a few turns" (the statement's domain; the workload goes to +-30 turns): observed for information only
+/// longitudes far beyond "a few turns" (up to 1e9 turns): the cell must still contain the position (tolerance following the ulp of lon)
 fn far_longitudes(ctx: &mut Ctx, layers: &[&'static nested::Layer]) {
   for &turns in [31.0f64, 32.5, 40.0, 100.0, 1e3, 1e6, 1e9].iter() { for &sg in [1.0, -1.0].iter() { for &(l0, lat) in [(0.3, 0.2), (2.0, 1.2), (4.0, -0.9)].iter() {
     let lon = sg * (l0 + turns * TWO_PI);
     let tol = 8e-16 * lon.abs() * 4.0 / PI + 1e-12;
     let ok = (0..30usize).step_by(7).all(|d| match catch(|| layers[d].hash(lon, lat)) { Ok(h) => h < n_hash(d as u8) && contains(d as u8, h, lon, lat, tol).0, Err(_) => false });
-    ctx.info(&format!("far-longitude(|lon|~{:e}-turns):{}", turns, if ok { "cell-contains-the-position" } else { "wrong-cell-or-panic(not-claimed:-beyond-a-few-turns)" }));
+    ctx.eval(); if ok { ctx.hard("far-longitude", &[lon.to_bits(), lat.to_bits()]); } else { ctx.violation("point-not-in-returned-cell", Case::new("hash").u("depth", 0).f("lon", lon).f("lat", lat).s("cls", "far-longitude"), format!("{} turns away: wrong cell or panic at one of the depths 0, 7, .. 28", turns)); }
   } } }
 }
 
